@@ -75,7 +75,13 @@ class C02(Prop):
                 a, b = G.op_match_doc(api, 0, test, v0, r.choice(["string", "bytes"])), G.op_match_doc(api, 0, test, v1, r.choice(["string", "bytes"]))
             env2 = r.choice([(False, "unset"), (False, "other"), (False, "clean"), (True, "true"), (True, "unset")])
             filler = G.run_program(r, G.gen_program(r, ntests=(0, 2), maxcalls=4, names=[b"TestF1", b"TestF2"]), 1)
-            ops = filler + [a, G.op_end(test), {"op": "dumpfs"}, {"op": "newprocess"},
+            pin = []
+            if r.chance(1, 6):
+                # updating switched off by an explicit Update(false) on the Config although UPDATE_SNAPS=true is in the environment
+                env2 = (False, "true")
+                pin = [G.op_newconfig(dir=b"def", upd=False)]
+                b = dict(b, h=1)
+            ops = filler + [a, G.op_end(test), {"op": "dumpfs"}, {"op": "newprocess"}] + pin + [
                             G.op_setenv(env2[0], env2[1], colour), b, {"op": "dumpfs"}]
             cases.append({"ci": False, "updvar": "unset", "colour": colour, "ops": ops, "meta": {"api": api}})
         return cases
